@@ -64,7 +64,7 @@ def run(tier, seed, jobs):
                  ["sessions A (mutator) and B (prober) both selected on INBOX(3 or 4); pack threshold lowered to 2 messages",
                   "expunge subsets are the 6 listed set shapes per state (composed over the history they reach every subset)",
                   "INTERNALDATE compared exactly for messages whose date was supplied (APPEND date-time / delivery agent utime)"],
-                 time_budget=85 if tier == "quick" else 1500)
+                 time_budget=85 if tier == "quick" else 900)
 
 
 def replay(rec):
